@@ -48,9 +48,8 @@ def parseMutOp (dflt : Int) (j : Json) : Except String (Option (MutOp Int)) := d
   | "updcoords" => pure (some (.updCoords at_ (← fInt j "mul") (← fInt j "add")))
   | "updpayloads" => let a ← fInt j "add"; pure (some (.updPayloads at_ (fun v => v + a)))
   | "denseref" =>
-    let s ← fInt j "s"; let e ← fInt j "e"; let st ← fNat j "step"
-    let n := ((e - s).toNat + st - 1) / st
-    let cs : List Int := (List.range n).map (fun (i : Nat) => s + Int.ofNat i * Int.ofNat st)
+    let s ← fInt j "s"; let e ← fInt j "e"; let st ← fInt j "step"
+    let cs : List Int := pyRange s e st
     let w ← (← fArr j "w").mapM (fun r => do
       match (← asInts r) with | [c, v] => pure (c, v) | _ => throw "denseref write")
     pure (some (.denseRef at_ cs w))
